@@ -150,6 +150,7 @@ PROPS = {
               "the restart succeeds, emits nothing, keeps the persisted Orderer state, and the restarted instance answers every event of post like the one that kept running (all accepted, same blocks incl. cheater lists per event), ending with the same persisted Orderer state and the same index. "
               "GONE there: hobs before and after the restart (Consensus.observe_eq_FC + Compose.bootstrap_congr), hvals (valsOK_of_build, C12), hbound (frameBound_of_checks, C13). "
               "Hypotheses that remain there: the property's own (Valid history, claimed frames obey the frame rule, forkers < 1/3, parents-first orders), the application never seals (one epoch), nVals + number of events < 2^32 (C05: 32-bit branch ids), validators named by canonical index with non-zero 32-bit weights and the record built by Model.Pos.build (WeightsOK/BuiltFor), every event passed eventcheck with its claimed frame and parent list (Checked). Still not modelled: the reload of the index tables from BranchesInfo, store caches (C33), restarts across seals."
+              "Several epochs with restarts (Consensus.indexed_restarts_multi_epoch_partial): the several-epoch run of the combined model and the same run with any number of restartIndexed calls at any points between Process calls in any epochs (also right after a seal) both succeed, emit literally the same block list and end with the same persisted Orderer state (epoch, validators, last decided frame, roots table), index state and indexing order; remaining per epoch: Valid, FramesAccepted, BFT, parents-first order, nVals+events < 2^32, WeightsOK, BuiltFor, Checked. "
               " Persistence of the index (Props/VecPersist.lean over Model/VecPersist.lean: store + unflushed overlay + in-memory branch table; the conditions of Engine.Flush / DropNotFlushed / InitBranchesInfo regenerated as Gen.VecPersist): for every sequence of add / flush / DropNotFlushed / query / restart the working view equals the functional run over the surviving events (working_view_eq_run), a restart gives the run over the FLUSHED events with the persisted branch table even when no fork happened yet (reload_eq_run_flushed, reload_branch_table, branches_record_persisted, fork_after_restart), and add followed by DropNotFlushed leaves no trace (add_drop_no_trace, add_drop_erased); negative witness for a Flush that persists the table only once a fork exists (Mutant.witness). ",
               props=["LachesisVerif.Props.C08", "LachesisVerif.Props.Consensus", "LachesisVerif.Props.VecPersist"], level="proof"),
     "C09": _p("Proof. Implementation level (Model.Orderer, run in lock-step against the Go code; unconditional in the oracles): if EndBlock returns a "
